@@ -364,8 +364,34 @@ def check_current(ctx):
               "CURRENT content is used without the non-empty/newline check")
 
 
+def check_deleted_set_order(ctx):
+    """The set of deleted files of an edit is keyed by (level, number): its
+    comparator separates any two different pairs, for every pair of 64-bit
+    file numbers (a truncated difference merges or misorders entries, and the
+    edit then loses deleted-file fields on export and on import)."""
+    from ..rules import Narrowing, Unsupported, cfg_sign_triple
+    f = ctx.fn("file_entry_compare", "src/version_edit.c")
+    ini = [e for b, i, e in ctx.fn("ldb_edit_init", "src/version_edit.c").events("call")
+           if is_call(e, "rb_set_init") and argkey(e, 0) == "&edit->deleted_files"]
+    ctx.check(len(ini) == 1 and argkey(ini[0], 1) == "file_entry_compare", "T8-deleted-set-order", "comparator-installed", f.name, f.loc,
+              "the deleted-file set is ordered by file_entry_compare", "deleted-file set comparator: %s" % [argkey(e, 1) for e in ini])
+    for inst, a, b, ties in (("by-level", "xp->level", "yp->level", (("xp->number", "yp->number"),)),
+                             ("by-number", "xp->number", "yp->number", (("xp->level", "yp->level"),))):
+        try:
+            tr = cfg_sign_triple(f, a, b, ties=ties)
+        except Narrowing as u:
+            ctx.bad("T8-deleted-set-order", inst, f.name, f.loc, "file_entry_compare: %s" % u)
+            continue
+        except Unsupported as u:
+            raise AnalysisBroken("file_entry_compare: %s" % u)
+        ctx.check(tr[1] == 0 and tr[0] * tr[2] < 0, "T8-deleted-set-order", inst, f.name, f.loc,
+                  "entries that differ %s are kept apart and ordered, whatever the values" % inst.replace("-", " "),
+                  "sign triple of file_entry_compare %s is %s" % (inst, tr))
+
+
 def check(ctx):
     check_manifest_reader_fatal(ctx)
+    check_deleted_set_order(ctx)
     from . import c19 as _c19
     _c19.check_descriptor(ctx)     # repair installs its MANIFEST-000001 so that CURRENT names an existing file
     check_edit_numbers(ctx)
